@@ -223,7 +223,8 @@ def case_struct(cs):
             continue
         tick, subs = declared[m.full_name]
         extra = ["dyn"] if ("dyn" in m.children) else []
-        exp = set(list(data.columns) if tick is None else [t for t in tick if t in data.columns]) | set(subs) | set(extra)
+        cols0 = allt or ["zz"]      # the columns of the frame as it was handed to setup (the live frame may have been written through)
+        exp = set(cols0 if tick is None else [t for t in tick if t in cols0]) | set(subs) | set(extra)
         got = list(m.universe.columns)
         common.bump(cnt, "struct_universe_evals")
         if set(got) != exp or len(got) != len(set(got)):
@@ -234,6 +235,8 @@ def case_struct(cs):
             b = m.universe[sname].reindex(m.children[sname].prices.index).to_numpy(dtype=float)
             if not ((a == b) | (np.isnan(a) & np.isnan(b))).all():
                 return common.result(common.VIOL, sig=[form], nt=True, cnt=cnt, mech="c19_substrategy_column", witness=dict(w, node=m.full_name, child=sname))
+    if list(data.columns) != (allt or ["zz"]):
+        return common.result(common.VIOL, sig=[form], nt=True, cnt=cnt, mech="c19_input_frame_written", witness=dict(w, columns_now=list(data.columns), columns_given=allt))
     depth = max(p.count(">") for p in preorder("root", kids))
     return common.result(common.HELD, sig=[form, repr(kids)[:120]], nt=depth >= 1, cnt=cnt, sample={"form": form, "description": kids})
 
